@@ -10,6 +10,8 @@ import (
 	"github.com/buildbarn/bb-remote-execution/pkg/filesystem/virtual"
 	"github.com/buildbarn/bb-storage/pkg/filesystem"
 	"github.com/buildbarn/bb-storage/pkg/filesystem/path"
+	"google.golang.org/grpc/codes"
+	"google.golang.org/grpc/status"
 	"pgregory.net/rapid"
 
 	"verif/harness/internal/simkit"
@@ -35,9 +37,13 @@ type vdCase struct {
 	rt   *rapid.T
 	rec  *simkit.Recorder
 	mode string // "C13": the model is the verdict; "C14": lock probes are the verdict
-	w    *vdWorld
-	m    *mModel
-	cfg  string
+	// profile: "std" (names {a,b,A,c,.hidden}) or "wide" (16 names, one
+	// directory filled to 12-16 entries, page sizes 1-8 and "all").
+	profile  string
+	alphabet []string
+	w        *vdWorld
+	m        *mModel
+	cfg      string
 
 	reg        []*mNode // directories whose real object is known
 	lastChange map[*mNode]uint64
@@ -49,22 +55,25 @@ type vdCase struct {
 	curCall    string
 	symCounter int
 	tagCounter int
+	targets    []string // symlink targets used so far (they may repeat)
 
 	cursors  []*vdCursor
 	nextCur  int
 	removers []*vdSavedRemover
 
 	// coverage
-	sawRenameOver      bool
-	sawRemoveHard      bool // removal of a non-empty directory, or a mutation attempted on a removed one
-	sawInterleaved     bool
-	sawError           bool
-	sawDeletedBulk     bool
-	sawLazyFail        bool
-	sawHardLink        bool
-	cursorsCompleted   int
-	errPairs           map[string]int
-	labels             map[string]bool
+	sawRenameOver    bool
+	sawRemoveHard    bool // removal of a non-empty directory, or a mutation attempted on a removed one
+	sawInterleaved   bool
+	sawError         bool
+	sawDeletedBulk   bool
+	sawLazyFail      bool
+	sawHardLink      bool
+	cursorsCompleted int
+	sawWideCompleted bool // a listing over >= 9 entries completed across a mutation
+	sawDupTarget     bool // two symlink creations used one target
+	errPairs         map[string]int
+	labels           map[string]bool
 }
 
 func (c *vdCase) scriptText() string {
@@ -135,6 +144,10 @@ func vdStatusName(s virtual.Status) string {
 		return rSymlink
 	case virtual.StatusErrXDev:
 		return rXDev
+	case virtual.StatusErrInval:
+		return rInval
+	case virtual.StatusErrNXIO:
+		return rNXIO
 	}
 	return fmt.Sprintf("STATUS(%d)", int(s))
 }
@@ -151,6 +164,8 @@ func vdErrName(err error) string {
 		return rExist
 	case err == syscall.ENOTEMPTY:
 		return rNotEmpty
+	case status.Code(err) == codes.InvalidArgument:
+		return rInvalidArg
 	}
 	return "ERR(" + err.Error() + ")"
 }
@@ -158,11 +173,18 @@ func vdErrName(err error) string {
 func vdTranslate(codes []string, virtualAPI bool) []string {
 	out := make([]string, len(codes))
 	for i, x := range codes {
-		if x == rLazyFail {
+		switch x {
+		case rLazyFail:
 			if virtualAPI {
 				x = rIO
 			} else {
 				x = rFetchErr
+			}
+		case rLazyCollide:
+			if virtualAPI {
+				x = rIO
+			} else {
+				x = rInvalidArg
 			}
 		}
 		out[i] = x
@@ -187,7 +209,7 @@ func (c *vdCase) checkResult(fn string, want []string, got string, virtualAPI bo
 	if got != rOK {
 		c.sawError = true
 		c.errPairs[fn+":"+got]++
-		if got == rIO || got == rFetchErr {
+		if got == rIO || got == rFetchErr || got == rInvalidArg {
 			c.sawLazyFail = true
 		}
 	}
@@ -500,7 +522,7 @@ func (c *vdCase) compareDir(d *mNode, inodes map[uint64]*mNode) {
 	}
 
 	// Name resolution for every name of the alphabet.
-	for _, name := range vdAlphabet {
+	for _, name := range c.alphabet {
 		e := c.m.lookup(d, name)
 		var attr virtual.Attributes
 		var child virtual.DirectoryChild
@@ -593,7 +615,9 @@ func (c *vdCase) checkListedEntry(d *mNode, le vdListed, inodes map[uint64]*mNod
 		}
 	}
 	ino := le.attrs.GetInodeNumber()
-	if other, ok := inodes[ino]; ok && other != e.child {
+	if other, ok := inodes[ino]; ok && other != e.child && !(other.kind == "symlink" && e.child.kind == "symlink" && other.tag == e.child.tag) {
+		// Symlinks are stateless: their inode number is a function of the
+		// target, so two symlink nodes with one target share it.
 		c.failModel("entry %q of %s shares inode number %d with a different node", le.name, dn, ino)
 	}
 	inodes[ino] = e.child
